@@ -143,6 +143,7 @@ pub struct World {
 	pub blocks: HashMap<u64, Block>,
 	pub id_of: HashMap<Hash, u64>,
 	pub commit_of: BTreeMap<u64, Commitment>, // model commit id -> real commitment
+	pub outputs: HashMap<Commitment, Output>, // every output of every minted block (first occurrence)
 }
 
 fn parse_tree(beh: &Value) -> (BTreeMap<u64, Blk>, HashMap<u64, u64>) {
@@ -368,12 +369,21 @@ pub fn build_world(beh: &Value, dir: &str) -> World {
 			builder = init_chain(&format!("{}/builder", dir));
 		}
 	}
+	let mut outputs: HashMap<Commitment, Output> = HashMap::new();
+	for id in tree.keys() {
+		if let Some(b) = blocks.get(id) {
+			for o in b.outputs() {
+				outputs.entry(o.commitment()).or_insert_with(|| o.clone());
+			}
+		}
+	}
 	World {
 		tree,
 		pool,
 		blocks,
 		id_of,
 		commit_of,
+		outputs,
 	}
 }
 
@@ -433,6 +443,12 @@ fn compare(w: &World, chain: &Chain, proj: &Value, step: usize, mism: &mut Vec<V
 					Ok(o) => {
 						if o.commitment() != *commit || o.commitment() != oid.commitment() {
 							bad("unspent_pos_commit", json!(c), json!(pos.pos));
+						}
+						// ... with the range proof it was created with (the rangeproof MMR is parallel)
+						if let Some(orig) = w.outputs.get(commit) {
+							if orig.proof != o.proof {
+								bad("unspent_pos_proof", json!(c), json!(pos.pos));
+							}
 						}
 					}
 					Err(e) => bad("unspent_at_pos_missing", json!(c), json!(format!("{:?}", e))),
